@@ -4,6 +4,7 @@
 -/
 import MitmVerif.Lemmas.C25Msg
 import MitmVerif.Lemmas.C25Loop
+import MitmVerif.Lemmas.C25Matched
 set_option linter.unusedVariables false
 set_option linter.unusedSimpArgs false
 namespace MitmVerif.Props.C25
@@ -286,6 +287,10 @@ theorem roundtrip_ascii (I : Idna) (m : Msg) (h : wellFormedAscii m = true) :
 
 -- the example message with the former defect witnesses is covered by the codec-free predicate
 example : wellFormedAscii exampleMsg = true := by decide +kernel
+-- the instrumented decoder flags the F-C25a witness and passes a compressed SOA-style record
+example : (unpackT noIdna witnessF25a).map (·.2) = some false := by decide +kernel
+example : (unpackT noIdna [0,1,0x81,0x80,0,1,0,1,0,0,0,0, 1,0x61,0, 0,6,0,1, 0xc0,0x0c, 0,6,0,1, 0,0,0,9, 0,8,
+    0xc0,0x0c, 0xc0,0x0c, 0xc0,0x0c,0xc0,0x0c]).map (·.2) = some true := by decide +kernel
 -- ... and the predicate is not trivial: an IDN label and a 64-byte label are outside it
 example : asciiName [0x62, 0xc3, 0xbc] = false ∧ asciiName (List.replicate 64 0x61) = false ∧
     asciiName [0x78, 0x6e, 0x2d, 0x2d, 0x61] = false ∧ asciiName [0x61, 0x2e, 0x2e, 0x62] = false := by decide +kernel
@@ -322,5 +327,42 @@ theorem expand_cycle_is_error (buf : Bytes) (off : Nat) (seen : List Nat) (hcyc 
 example : Reaches [0xc0, 0x00] 0 0 := .one ⟨[], 2, by decide +kernel⟩
 example : Reaches [0xc0, 0x02, 0xc0, 0x00] 0 0 :=
   .step (b := 2) ⟨[], 2, by decide +kernel⟩ (.one ⟨[], 2, by decide +kernel⟩)
+
+/-! ### round 5: the guard of `reencode_stable_partial` follows from the input -/
+
+/-- **C25 (expansion by layout yields plain data).** Record data that matches the layout of its type (`rrMatched`:
+    `expand_record_data` never reaches its heuristic fallback) comes out with every name uncompressed and nothing
+    else touched: it is `rdataPlain`. -/
+theorem expanded_by_layout_is_plain (buf : Bytes) (off len ty : Nat) (d : Bytes) (hm : rrMatched buf off len ty = true)
+    (h : rrData buf off len ty = some d) : rdataPlain ty d = true :=
+  rrData_matched_plain hm h
+
+/-- the instrumented decoder `unpackT` is `unpack` plus a flag -/
+theorem unpackT_erases (I : Idna) (b : Bytes) (m : Msg) (ok : Bool) (h : unpackT I b = some (m, ok)) : unpack I b = some m :=
+  (unpackT_spec h).1
+
+/-- **C25 (re-encoding is stable whenever no record fell back to the heuristic).** The hypothesis is about the decode of
+    the input (`unpackT` reports whether every record matched the layout of its type), no longer about the decoded
+    record data: for every byte string — compressed names, forward pointers, any idna codec — whose records all match
+    their layouts, the decoded message re-encodes and decodes to itself. Together with F-C25a/b/c this is the exact
+    boundary: the only inputs for which the last clause of C25 can fail are those with a record in the fallback. -/
+theorem reencode_stable_matched (I : Idna) (b : Bytes) (m : Msg) (h : unpackT I b = some (m, true)) :
+    ∃ b', pack I m = some b' ∧ unpack I b' = some m := by
+  obtain ⟨hu, hp⟩ := unpackT_spec h
+  exact reencode_stable_partial I b m hu (by simpa [records] using hp rfl)
+
+/-- **C25 (a cyclic first name rejects the whole message).** Input-level form of `pointer_cycle_is_error` without any
+    cache hypothesis: a message that announces at least one question and whose first name (offset 12) lies on a
+    compression-pointer cycle is a parse error. -/
+theorem cyclic_first_name_is_rejected (I : Idna) (b : Bytes) (nq : Nat) (hq : getU16 b 4 = some (nq + 1))
+    (hcyc : Reaches b 12 12) : unpack I b = none := by
+  have hn : unpackName I b 12 [] 0 = none := pointer_cycle_is_error I b 12 [] 0 (CacheTerm.nil b) hcyc
+  unfold unpack unpackFrom
+  cases h0 : getU16 b 0 <;> cases h2 : getU16 b 2 <;> cases h6 : getU16 b 6 <;> cases h8 : getU16 b 8 <;>
+    cases h10 : getU16 b 10 <;> simp [hq, unpackQuestions, hn]
+
+-- header with qdcount 1 followed by a self-pointing name
+example : unpack noIdna [0,1,1,0,0,1,0,0,0,0,0,0, 0xc0,0x0c, 0,1,0,1] = none :=
+  cyclic_first_name_is_rejected noIdna _ 0 (by decide +kernel) (.one ⟨[], 2, by decide +kernel⟩)
 
 end MitmVerif.Props.C25
